@@ -4,6 +4,7 @@ import (
 	"fmt"
 	"github.com/tsawler/tabula"
 	"html"
+	"sort"
 	"strings"
 
 	"github.com/tsawler/tabula/docx"
@@ -772,6 +773,84 @@ func init() {
 				}
 			}
 			r.Check(okP, "document-tables:pptx", whyP, Bs(path))
+		}
+		// ---- whole worksheets: the used range comes out as one pipe table, every cell where the sheet has it
+		{
+			type xc struct {
+				col, row int
+				text     string
+			}
+			shapes := map[string][]xc{
+				"stamp-above-the-right-column":  {{2, 0, "stamp"}, {0, 1, "a2"}, {1, 1, "b2"}, {0, 2, "a3"}, {1, 2, "b3"}},
+				"a-single-cell":                 {{1, 1, "only"}},
+				"first-row-right-last-row-left": {{3, 0, "d1"}, {0, 3, "a4"}},
+				"diagonal":                      {{0, 0, "p"}, {1, 1, "q"}, {2, 2, "r"}},
+				"anti-diagonal":                 {{2, 0, "p"}, {1, 1, "q"}, {0, 2, "r"}},
+				"full":                          {{0, 0, "h1"}, {1, 0, "h2"}, {0, 1, "x"}, {1, 1, "y"}},
+			}
+			var names []string
+			for n := range shapes {
+				names = append(names, n)
+			}
+			sort.Strings(names)
+			for _, name := range names {
+				cells := shapes[name]
+				minC, minR, maxC, maxR := 1<<30, 1<<30, -1, -1
+				byRow := map[int][]c17Cell{}
+				for _, c := range cells {
+					t := c.text
+					byRow[c.row] = append(byRow[c.row], c17Cell{ref: refOf(c.col, c.row), t: "inlineStr", is: &t})
+					if c.col < minC {
+						minC = c.col
+					}
+					if c.col > maxC {
+						maxC = c.col
+					}
+					if c.row < minR {
+						minR = c.row
+					}
+					if c.row > maxR {
+						maxR = c.row
+					}
+				}
+				var rows []c17Row
+				for rw := minR; rw <= maxR; rw++ {
+					if cs, ok := byRow[rw]; ok {
+						rows = append(rows, c17Row{r: rw + 1, cells: cs})
+					}
+				}
+				path := tmpFile(r, ".xlsx", writeZip(c17WorkbookMembers([]c17Sheet{{name: "Sheet1", rows: rows}}, nil)))
+				why := ""
+				rd, err := xlsx.Open(path)
+				if err != nil {
+					why = "generated workbook does not open: " + err.Error()
+				} else {
+					md, err := rd.Markdown()
+					rd.Close()
+					var tbl strings.Builder
+					for _, ln := range strings.Split(md, "\n") {
+						if strings.HasPrefix(strings.TrimSpace(ln), "|") {
+							tbl.WriteString(strings.TrimSpace(ln) + "\n")
+						}
+					}
+					grid, ok := gfmTable(tbl.String())
+					switch {
+					case err != nil:
+						why = "Markdown failed: " + err.Error()
+					case !ok:
+						why = fmt.Sprintf("no readable pipe table in %q", md)
+					case len(grid) != maxR-minR+1 || len(grid[0]) != maxC-minC+1:
+						why = fmt.Sprintf("the used range is %d rows x %d columns, the pipe table has %d x %d: %q", maxR-minR+1, maxC-minC+1, len(grid), len(grid[0]), md)
+					default:
+						for _, c := range cells {
+							if got := strings.TrimSpace(grid[c.row-minR][c.col-minC]); got != c.text {
+								why = fmt.Sprintf("cell %s holds %q, the table has %q there: %q", refOf(c.col, c.row), c.text, got, md)
+							}
+						}
+					}
+				}
+				r.Check(why == "", "document-table:xlsx", "sheet "+name+": "+why, Bs(path))
+			}
 		}
 		// ---- heading levels
 		for lvl := -1; lvl <= 9; lvl++ {
